@@ -199,4 +199,16 @@ CHECKS = {
         "note": STD_NOTE + " The correspondence of the Panic sites themselves (that the model has a Panic branch wherever the code can panic) is what the differential check validates: the harness reports PANIC with the message, and a panic the model does not predict is a violation with the input as replay.",
         "technique": "Coq proof (no-Panic, compositional over the result monad) + differential correspondence with panic capture",
     },
+    "C06": {
+        "category": "other",
+        "text": "MEASURED, not proved: this property lives in the allocator and in rustc's feature-gated compilation, which an executable "
+                "Gallina model cannot exhibit. On every run against /repo's working tree: (a) a counting GlobalAlloc is active around every "
+                "slice-parser call of the C01 case set (valid and corrupted inputs, every accessor, long and cyclic hash chains, version "
+                "queries) with a non-allocating output sink: the allocation count must be 0; (b) cargo check for all 8 subsets of "
+                "{alloc, std, to_str}; (c) rustc -Zls=root on the rlib: with default features off the external crates are within {core, "
+                "compiler_builtins}; with alloc only, within that plus alloc. The Coq development contributes only C03 (every returned "
+                "slice is a range of the caller's buffer: nothing is copied).",
+        "note": "Level 'other' on purpose. Trusted: the counting allocator hook, cargo/rustc (stable for the matrix, nightly for -Zls), the harness printers being allocation-free (the two that are not pause the counter).",
+        "technique": "measurement: counting global allocator over the differential case set + feature-matrix builds + rlib dependency listing (no theorem; see DESIGN.md section 5 C06)",
+    },
 }
